@@ -463,12 +463,13 @@ func (d *db) CopySQLCatalog(ctx context.Context, txID uint64) (uint64, error) {
 		return 0, err
 	}
 
+	defer tx.Cancel()
+
 	err = d.CopyCatalogToTx(ctx, tx)
 	if err != nil {
 		d.Logger.Errorf("error during truncation for database '%s' {err = %v, id = %v, type=sql_catalogue_copy}", d.name, err, txID)
 		return 0, err
 	}
-	defer tx.Cancel()
 
 	// setting the metadata to record the transaction upto which the log was truncated
 	tx.WithMetadata(store.NewTxMetadata().WithTruncatedTxID(txID))
